@@ -691,3 +691,53 @@ fn native_enum_store_wal_replay_equals_commit() {
         }
     }
 }
+
+// ---- the root does not depend on how the commit workers finish: repeated runs ----------------------
+// C13 asks for identical results "for every thread interleaving of the internal workers".  Neither
+// deductive tool reaches the worker hand-off (threads over a shared write pass), and the scripted
+// enumeration above takes whatever schedules its few commits happen to get.  This harness is NOT an
+// enumeration of schedules either: it repeats one computation - the root of a fixed batch with one
+// cheap overwrite under every child of the root page, 64 commit workers finishing almost together -
+// 1500 times and compares every result with the 1-worker root.  A change that makes the result depend
+// on the finishing order is seen with the probability its window gives it; a pass proves nothing
+// about other schedules.
+#[cfg(test)]
+#[test]
+fn native_repeat_root_independent_of_worker_finish_order() {
+    use crate::hasher::Blake3Hasher;
+    use crate::{KeyReadWrite, Nomt, Options, SessionParams};
+    let key = |child: u8, i: u8| -> [u8; 32] {
+        let mut k = [0u8; 32];
+        k[0] = child << 2; // the first six bits select the child of the root page
+        k[1] = i;
+        k[31] = 1;
+        k
+    };
+    let open = |dir: &std::path::Path, workers: usize| {
+        let mut o = Options::new();
+        o.path(dir);
+        o.commit_concurrency(workers);
+        o.bitbox_seed([9; 16]);
+        o.hashtable_buckets(8192);
+        Nomt::<Blake3Hasher>::open(o).unwrap()
+    };
+    let d1 = tempfile::tempdir().unwrap();
+    let d64 = tempfile::tempdir().unwrap();
+    let one = open(&d1.path().join("db"), 1);
+    let many = open(&d64.path().join("db"), 64);
+    let mut population: Vec<([u8; 32], KeyReadWrite)> = (0..64u8).flat_map(|c| (0..3u8).map(move |i| (c, i))).map(|(c, i)| (key(c, i), KeyReadWrite::Write(Some(vec![c, i, 7])))).collect();
+    population.sort_by_key(|(k, _)| *k);
+    for db in [&one, &many] {
+        let s = db.begin_session(SessionParams::default());
+        s.finish(population.clone()).unwrap().commit(db).unwrap();
+    }
+    assert!(one.root() == many.root(), "the populated stores already differ");
+    let mut batch: Vec<([u8; 32], KeyReadWrite)> = (0..64u8).map(|c| (key(c, 1), KeyReadWrite::Write(Some(vec![0xEE, c])))).collect();
+    batch.sort_by_key(|(k, _)| *k);
+    let reference = { let s = one.begin_session(SessionParams::default()); s.finish(batch.clone()).unwrap().root() };
+    for it in 0..1500 {
+        let s = many.begin_session(SessionParams::default());
+        let got = s.finish(batch.clone()).unwrap().root();
+        assert!(got == reference, "repetition {}: the root computed with 64 commit workers differs from the root computed with 1", it);
+    }
+}
